@@ -314,6 +314,17 @@ struct ConnLedger {
     pending_cc: HashMap<(Space, u64), bool>,
     last_metrics: Option<(u64, u64, u64, u64, u32, u32, u32)>, // t, srtt, latest, rttvar, pto_count, cwnd, bif
     loss_since_last_cc_send: bool,
+    /// start of the recovery period in progress (instant of the loss that opened it), None when none is known to be open
+    /// reading A: starts of the recovery periods the controller may still be in (empty: certainly in none)
+    rec_starts: BTreeSet<u64>,
+    /// reading A: an acknowledgement that may have ended the period has been processed since the last entry
+    rec_maybe_out: bool,
+    /// latest send time among the packets newly acknowledged in the current processing step
+    rec_acked_t: Option<u64>,
+    /// a period was opened in the current processing step (at this instant)
+    rec_opened_now: Option<u64>,
+    recovery_start_b: Option<u64>,
+    cur_mtu: u64,
     paths: BTreeSet<u64>,
     /// losses waiting for the metrics event that closes the same processing step
     pending_losses: Vec<(Space, u64, u64, Sent, u64)>, // space, pn, t, sent, largest_acked
@@ -341,6 +352,9 @@ pub struct RecoverySummary {
     pub losses: usize,
     pub multi_path: bool,
     pub pto_doubling_checked: usize,
+    pub recovery_periods: usize,
+    pub losses_inside_recovery: usize,
+    pub over_window_sends: usize,
 }
 
 impl ConnLedger {
@@ -401,12 +415,19 @@ pub fn check_recovery(sc: &Scenario, out: &Outcome, opts: &RecoveryOpts, obs: &m
                         let allowance = !matches!(mode, TxMode::Normal) || c.loss_since_last_cc_send;
                         if bif >= cwnd as u64 {
                             c.was_limited = true;
+                            sum.over_window_sends += 1;
+                            if allowance && matches!(mode, TxMode::Normal) {
+                                // the allowance of the latest period was used: that period is the current one
+                                if let Some(latest) = c.rec_starts.iter().next_back().copied() {
+                                    c.rec_starts.retain(|s| *s == latest);
+                                }
+                            }
                             if !allowance {
                                 return Err(Fail::new(
                                     "c10:sent-while-congestion-limited",
                                     format!(
-                                        "endpoint {} conn {} t={}us: congestion-controlled packet {space:?} pn {pn} ({len} bytes, mode {mode:?}) sent with {bif} bytes in flight >= congestion window {cwnd}, and it is neither a probe nor the first packet after a loss",
-                                        r.ep, r.conn, r.t_us
+                                        "endpoint {} conn {} t={}us: congestion-controlled packet {space:?} pn {pn} ({len} bytes, mode {mode:?}) sent with {bif} bytes in flight >= congestion window {cwnd}, and it is neither a probe nor the one packet allowed on entering a recovery period (recovery periods possibly in progress started at {:?}us)",
+                                        r.ep, r.conn, r.t_us, c.rec_starts
                                     ),
                                 ));
                             }
@@ -429,6 +450,12 @@ pub fn check_recovery(sc: &Scenario, out: &Outcome, opts: &RecoveryOpts, obs: &m
                 let sp = c.spaces.entry(*space).or_default();
                 sp.largest_acked = Some(sp.largest_acked.map(|l| l.max(*hi)).unwrap_or(*hi));
                 let pns: Vec<u64> = sp.outstanding.range(*lo..=*hi).map(|(p, _)| *p).collect();
+                // RFC 9002 7.3.2: the recovery period ends when a packet sent during it is acknowledged
+                // (RFC 9002 A.7 and the code process the losses of an ACK before its newly acknowledged packets, so this
+                // takes effect at the end of the processing step)
+                if let Some(t) = sp.outstanding.range(*lo..=*hi).map(|(_, p)| p.t).max() {
+                    c.rec_acked_t = Some(c.rec_acked_t.map_or(t, |o| o.max(t)));
+                }
                 for p in pns {
                     sp.outstanding.remove(&p);
                     sp.acked_or_lost.insert(p);
@@ -440,12 +467,44 @@ pub fn check_recovery(sc: &Scenario, out: &Outcome, opts: &RecoveryOpts, obs: &m
                     sum.spurious += 1;
                 }
             }
-            Ev::PacketLost { space, pn, path, .. } => {
+            Ev::PacketLost { space, pn, path, mtu_probe, bytes } => {
                 c.apply_discard();
                 c.paths.insert(*path);
-                c.loss_since_last_cc_send = true;
                 c.had_loss = true;
                 sum.losses += 1;
+                // RFC 9002 7.3.1/7.3.2: one packet may be sent on *entering* a recovery period; a sender that is in a
+                // recovery period stays in it. Two readings of "entering" are accepted, tracked side by side:
+                //  A (7.3.2 text, the repository's controllers): a loss opens a period when none is open; a period
+                //    *may* end whenever a packet sent after its start is acknowledged (CUBIC skips the exit while it
+                //    is application limited, so "may", and every start that can still be current is kept until
+                //    evidence - a used allowance - shows that a new period really began);
+                //  B (RFC 9002 B.6 pseudo code): a loss opens a period when the lost packet was sent after the start
+                //    of the latest period.
+                // (the loss of an MTU probe is not a congestion signal: RFC 8899 3, RFC 9000 14.4; neither is the "loss" of a
+                // packet that was never in flight - ACK-only packets, reported with 0 bytes)
+                let sent_t = c.spaces.get(space).and_then(|sp| sp.outstanding.get(pn)).map(|p| p.t);
+                if !*mtu_probe && *bytes > 0 {
+                    let opens_a = c.rec_starts.is_empty() || c.rec_maybe_out;
+                    let opens_b = match (c.recovery_start_b, sent_t) {
+                        (None, _) => true,
+                        (Some(start), Some(t)) => t > start,
+                        (Some(_), None) => false,
+                    };
+                    if opens_a {
+                        c.rec_starts.insert(r.t_us);
+                        c.rec_maybe_out = false;
+                        c.rec_opened_now = Some(r.t_us);
+                        c.loss_since_last_cc_send = true;
+                        sum.recovery_periods += 1;
+                    }
+                    if opens_b {
+                        c.recovery_start_b = Some(r.t_us);
+                        c.loss_since_last_cc_send = true;
+                    }
+                    if !opens_a && !opens_b {
+                        sum.losses_inside_recovery += 1;
+                    }
+                }
                 let sp = c.spaces.entry(*space).or_default();
                 let Some(sent) = sp.outstanding.remove(pn) else {
                     let why = if !sp.sent.contains(pn) {
@@ -483,6 +542,9 @@ pub fn check_recovery(sc: &Scenario, out: &Outcome, opts: &RecoveryOpts, obs: &m
             }
             Ev::HandshakeConfirmed => {
                 c.confirmed_at.get_or_insert(r.t_us);
+            }
+            Ev::MtuUpdated { mtu } => {
+                c.cur_mtu = *mtu as u64;
             }
             Ev::SpaceDiscarded(space) => {
                 c.apply_discard();
@@ -589,6 +651,19 @@ pub fn check_recovery(sc: &Scenario, out: &Outcome, opts: &RecoveryOpts, obs: &m
                     }
                 }
                 c.apply_discard();
+                c.rec_opened_now = None;
+                if let Some(t) = c.rec_acked_t.take() {
+                    if c.rec_starts.iter().any(|s| *s < t) {
+                        c.rec_maybe_out = true;
+                    }
+                }
+                // persistent congestion collapses the window to the minimum and restarts slow start, which also ends the
+                // recovery period (RFC 9002 7.6.2); it is not reported as an event, so a window at or below four maximum
+                // datagrams of the current size (the larger of the two controllers' minimum) is taken as "period possibly over"
+                if (*cwnd as u64) <= 4 * c.cur_mtu.max(1200) && !c.rec_starts.is_empty() {
+                    c.rec_maybe_out = true;
+                    c.recovery_start_b = None;
+                }
                 c.last_metrics = Some((r.t_us, *srtt_us, *latest_rtt_us, *rttvar_us, *pto_count, *cwnd, *bytes_in_flight));
             }
             _ => {}
